@@ -468,7 +468,7 @@ func init() {
 		ID:          "C10",
 		Level:       "model_checking",
 		Technique:   "exhaustive enumeration of (limit x declared length x message type x position in the exchange) on a real server with a zero-generating transport and a live-heap monitor, plus the same boundary enumeration directly on buffer.Reader; within-limit cases are judged differentially against a large limit, oversized cases against the protocol rule",
-		Rule:        "limits 12..40, 4095, 4096, 4097, 65536, 0 and -1 (default 16 MiB); body sizes {0,1,L-1,L,L+1,L+2,2L,2L+1,3L+7}, raw declared lengths 0..3, and 2^16, 2^31-5, 2^31-4, 2^32-5 for L >= 4096; all 13 client types + an unknown type; several oversized messages of different sizes in one session; values spanning several within-limit CopyData messages; positions startup / password / first message / between queries / after Parse / inside COPY / inside a TLS-upgraded session (limits 1 KiB, 8 KiB, 20000; Query and Bind bodies of L-1, L, L+1, 2L, 16383..16385, 20000, 70000 bytes; differential against the plaintext session); every message is followed by a probe query",
+		Rule:        "limits 12..40, 4095, 4096, 4097, 65536, 0 and -1 (default 16 MiB); body sizes {0,1,L-1,L,L+1,L+2,2L,2L+1,3L+7}, raw declared lengths 0..3, and 2^16, 2^31-5, 2^31-4, 2^32-5 for L >= 4096; all 13 client types + an unknown type; oversized start-up / password messages of which only the header is sent (the connection ends at once); several oversized messages of different sizes in one session; values spanning several within-limit CopyData messages; positions startup / password / first message / between queries / after Parse / inside COPY / inside a TLS-upgraded session (limits 1 KiB, 8 KiB, 20000; Query and Bind bodies of L-1, L, L+1, 2L, 16383..16385, 20000, 70000 bytes; differential against the plaintext session); every message is followed by a probe query",
 		Assumptions: []string{"not asserted: a ReadyForQuery after the 54000 error; continue-or-close after a sub-minimum length", "live heap is sampled (forced GC) at the first 8 and every 2048th transport read while the message is in flight"},
 		Enumerate:   c10Enumerate,
 		Bounds: func(tier string) map[string]any {
@@ -476,6 +476,47 @@ func init() {
 		},
 		RequiredOutcomes: []string{"within-limit", "oversized-session", "oversized-handshake", "sub-minimum", "direct-reader", "tls-session"},
 	})
+}
+
+// c10RunHeaderOnly: during start-up or authentication an oversized message "ends the connection instead": the
+// declared length alone decides, the server does not wait for (or read) a body the client may never send.
+func c10RunHeaderOnly(limit int, pos string, declared uint32) explore.Result {
+	var res explore.Result
+	res.Outcome = "oversized-handshake"
+	res.Key = fmt.Sprint("header-only", limit, pos, declared)
+	one, rec, err := c10Session(limit, pos == "password")
+	if err != nil {
+		res.Engine = err.Error()
+		return res
+	}
+	defer one.Stop()
+	var head []byte
+	switch pos {
+	case "startup":
+		head = pgproto.Be32(declared)
+	case "startup after a declined SSLRequest":
+		if out, _ := one.Step(pgproto.SSLRequest()); string(out) != "N" {
+			res.Engine = fmt.Sprintf("SSLRequest answered % x", out)
+			return res
+		}
+		head = pgproto.Be32(declared)
+	case "password":
+		if out, _ := one.Step(pgproto.Startup("user", "u")); harness.Kinds(out) != "R" {
+			res.Engine = "password request expected, got " + harness.Kinds(out)
+			return res
+		}
+		head = append([]byte{'p'}, pgproto.Be32(declared)...)
+	}
+	_, st := one.Step(head) // only the header: the body is withheld, the client stays connected
+	what := fmt.Sprintf("limit %d, %s: header declaring %d bytes, nothing else sent", limit, pos, declared)
+	if st != memnet.Closed {
+		res.Fail("oversized-handshake-not-ended", fmt.Sprintf("%s: the connection is %s (the server waits for the body of a message it will never accept)", what, st))
+	}
+	if cb := evKinds(rec.Evs); len(cb) > 0 {
+		res.Fail("oversized-handshake-callbacks", fmt.Sprintf("%s: callbacks %v", what, cb))
+	}
+	res.Trans = []string{pos + "|oversized header only|closed"}
+	return res
 }
 
 // c10RunSeveral: oversized Query messages whose bodies are runs of framed "smuggled" queries, then a probe.
@@ -551,6 +592,18 @@ func c10Enumerate(tier string, emit explore.Emit) {
 				r.Outcome = "within-limit"
 				return r
 			}})
+	}
+	for _, l := range []int{64, 4096, 65536} {
+		for _, pos := range []string{"startup", "startup after a declined SSLRequest", "password"} {
+			for _, d := range []uint32{uint32(l) + 5, uint32(2*l) + 4, 1 << 24, 1<<31 - 1, 1<<32 - 1} {
+				l, pos, d := l, pos, d
+				emit(explore.Case{Family: "oversized-handshake-header-only", Size: 1,
+					Desc: func() any {
+						return map[string]any{"limit": l, "position": pos, "declared_length": d, "sent": "header only"}
+					},
+					Run: func() explore.Result { return c10RunHeaderOnly(l, pos, d) }})
+			}
+		}
 	}
 	// several oversized messages of different sizes in one session: each is skipped in full by ITS declared length
 	for _, l := range []int{32, 1024} {
